@@ -149,6 +149,27 @@ func (e *Engine) prepareContract(ct *Contract) (*ssa.Function, error) {
 			}
 		}
 	}
+	for i := range ct.AssertAfter {
+		// type-check in the scope of the matching call statement
+		apos := bodyPos
+		if syn, ok := fn.Syntax().(*ast.FuncDecl); ok && syn.Body != nil {
+			found := false
+			ast.Inspect(syn.Body, func(n ast.Node) bool {
+				if ce, ok := n.(*ast.CallExpr); ok && !found && compact(e.nodeText(ce)) == ct.AssertAfter[i].Match {
+					apos = ce.End()
+					found = true
+				}
+				return !found
+			})
+			if !found {
+				return nil, fmt.Errorf("%s assertafter: no call statement with text %q", ct.FuncKey, ct.AssertAfter[i].Match)
+			}
+		}
+		pos = apos
+		if err := chk(&ct.AssertAfter[i].Cl, extra, "assertafter"); err != nil {
+			return nil, err
+		}
+	}
 	for k := range ct.Decreases {
 		pos = loopPosFor(k)
 		for i := range ct.Decreases[k] {
@@ -514,4 +535,25 @@ func (e *Engine) loopScopePos(fn *ssa.Function, head *ssa.BasicBlock) token.Pos 
 		return token.NoPos
 	}
 	return bestBody.Lbrace + 1
+}
+
+// afterCall evaluates the ghost assertions attached to a call statement of the outermost function.
+func (fx *FuncCtx) afterCall(st *State, call *ssa.Call) {
+	if st.discover != nil || len(st.stack) != 1 {
+		return
+	}
+	f := st.top()
+	if f.ct == nil || len(f.ct.AssertAfter) == 0 {
+		return
+	}
+	txt := fx.siteText(f.fn, call.Pos(), "call")
+	for i := range f.ct.AssertAfter {
+		a := &f.ct.AssertAfter[i]
+		if a.Match != txt {
+			continue
+		}
+		env := fx.frameEnv(st, f)
+		fx.bindLocals(env, st, f)
+		st.obligeP("assert", "assert#"+a.Cl.Name, env.evalBool(a.Cl.Expr), f.ct.propsOf(&a.Cl), call.Pos())
+	}
 }
